@@ -73,3 +73,124 @@ Theorem C11_assigned_le_capacity : forall a n p f m,
   exact_sum (p_avoid p) f (p_cidrs p) = Some m ->
   assigned a n f <= m.
 Proof. exact assigned_le_capacity. Qed.
+
+(* ==== allocmaps: the derived maps of the Go allocator as a refinement ====
+   (section appended by the allocmaps builder; proofs in Proofs/AllocMaps*.v)
+
+   Model/AllocMaps.v carries allocated, sharingKeyForIP, portsInUse, servicesOnIP
+   and poolIPsInUse as the Go code does and transcribes assign / Unassign /
+   checkSharing / Assign / the re-homing loop of SetPools on them.  [abs] forgets
+   the derived maps.  [MCoh m]: every derived map equals what is rebuilt from
+   [allocated]; [MInv m] = MCoh m + the invariant [Inv] of Model/Alloc.v on the
+   abstraction + the domain (every recorded service has at least one port, no
+   port twice, no address twice).  [wf_op]: the request of the operation has at
+   least one port and no port twice (what the API server guarantees). *)
+From Verif Require Import Model.AllocMaps Proofs.AllocMapsCohP Proofs.AllocMapsRefP Proofs.AllocMapsCongP
+  Proofs.AllocMapsTopP.
+
+Theorem C11_maps_coherent_initially : MInv m_init.
+Proof. exact MInv_init. Qed.
+
+(* every operation, whatever result the implementation reported for it *)
+Theorem C11_maps_coherent_preserved : forall m o, MInv m -> wf_op o -> MInv (fst (m_step m o)).
+Proof. exact MInv_step. Qed.
+
+(* the unconditional internal assign keeps the maps coherent exactly under the
+   obligation its comment puts on the caller *)
+Theorem C11_internal_assign_coherent : forall m s al,
+  MInv m -> AllocOk al -> compat (m_alloc m) s al -> MInv (m_assign m s al).
+Proof. exact MInv_assign. Qed.
+Theorem C11_unassign_coherent : forall m s, MInv m -> MInv (m_unassign m s).
+Proof. exact MInv_unassign. Qed.
+
+(* for every finite history: memory = rebuild (no ghost reservation, no lost
+   one), in all four derived maps, and neither the "incoherent state" panic of
+   Unassign nor a write to a nil map is reached *)
+Theorem C11_memory_equals_rebuild : forall ops,
+  Forall wf_op ops ->
+  let m := m_run ops m_init in
+  MCoh m /\ maps_equiv m (rebuild (abs m)) /\ abs (rebuild (abs m)) = abs m /\ m_panic m = false.
+Proof. exact memory_equals_rebuild. Qed.
+
+(* two coherent states recording the same allocations hold the same maps *)
+Theorem C11_coherent_maps_determined : forall m1 m2,
+  MCoh m1 -> MCoh m2 -> Inv (abs m1) -> Inv (abs m2) -> st_equiv (abs m1) (abs m2) -> maps_equiv m1 m2.
+Proof. exact MCoh_determines. Qed.
+
+(* checkSharing as Go evaluates it on the maps = the reservation test of
+   Model/Alloc.v on the surviving assignments *)
+Theorem C11_check_sharing_on_maps : forall m s x ports k,
+  MCoh m -> m_check_sharing m s x ports k = check_sharing (abs m) s x ports k.
+Proof. exact m_check_sharing_eq. Qed.
+
+(* every operation commutes with the abstraction, on results and states *)
+Theorem C11_op_commutes_with_abs : forall m o,
+  MCoh m -> not_setpools o -> (abs (fst (m_step m o)), snd (m_step m o)) = step (abs m) o.
+Proof. exact lift_step. Qed.
+
+(* SetPools, for EVERY order in which the range statement visits the services:
+   coherent again, and the recorded allocations are those of the abstract
+   SetPools.  (List equality would be too strong: re-homed services are
+   re-inserted, the concrete list is a permutation - C11_setpools_order_witness.) *)
+Theorem C11_setpools_commutes_with_abs : forall m ps order,
+  MInv m -> NoDup (map fst order) -> (forall e, In e order <-> In e (m_alloc m)) ->
+  MInv (m_set_pools m ps order) /\ st_equiv (abs (m_set_pools m ps order)) (set_pools (abs m) ps).
+Proof. exact m_set_pools_sim. Qed.
+
+Theorem C11_op_commutes_with_abs_any : forall m o, MInv m ->
+  snd (m_step m o) = snd (step (abs m) o) /\ st_equiv (abs (fst (m_step m o))) (fst (step (abs m) o)).
+Proof. exact lift_step_equiv. Qed.
+
+(* Model/Alloc.v cannot tell two equivalent states apart *)
+Theorem C11_abstract_step_respects_equiv : forall a b o,
+  Inv a -> Inv b -> st_equiv a b ->
+  snd (step a o) = snd (step b o) /\ st_equiv (fst (step a o)) (fst (step b o)).
+Proof. exact step_equiv. Qed.
+
+(* so whole histories agree: same results, equivalent states; every theorem of
+   C01/C02/C07/C11 about Model/Alloc.v speaks about the allocator with its maps *)
+Theorem C11_history_refines : forall ops,
+  Forall wf_op ops ->
+  m_trace ops m_init = trace ops init /\ st_equiv (abs (m_run ops m_init)) (run ops init).
+Proof.
+  intros ops H. apply m_run_sim; [exact H|exact MInv_init|exact Inv_init|apply st_equiv_refl].
+Qed.
+
+Theorem C11_concrete_records_exclusive : forall ops, Forall wf_op ops -> Inv (abs (m_run ops m_init)).
+Proof. intros ops H. exact (proj1 (proj2 (m_run_MInv ops m_init H MInv_init))). Qed.
+
+(* counters computed from the maps (len of the per-family in-use maps) *)
+Theorem C11_counters_from_maps : forall m n, MCoh m -> m_counters_for m n = counters_for (abs m) n.
+Proof. exact m_counters_eq. Qed.
+
+Local Open Scope N_scope.
+(* the boundary of the domain: a tenant without ports makes Unassign forget the
+   sharing key of an address that is still held (MCoh fails; a service with
+   another sharing key is then accepted on the address) *)
+Example C11_zero_port_tenant_breaks_coherence :
+  let m := m_run zero_port_ops m_init in
+  get_alloc (abs m) 2 <> None /\ tenants (abs m) ex_ip <> [] /\ key_of m ex_ip = None /\ ~ MCoh m /\
+  m_check_sharing m 3 ex_ip [p80] {| sharing := 9; backend := 0 |} = true /\
+  check_sharing (abs m) 3 ex_ip [p80] {| sharing := 9; backend := 0 |} = false.
+Proof. exact zero_port_incoherent. Qed.
+
+(* the same port twice in one service: Unassign reaches its panic *)
+Example C11_duplicate_port_panics : m_panic (m_run dup_port_ops m_init) = true.
+Proof. exact dup_port_panics. Qed.
+
+(* non-vacuity: the maps of a sharing history, stage by stage *)
+Example C11_sharing_maps_witness :
+  let m := m_run sharing_ops m_init in
+  key_of m ex_ip = Some {| sharing := 7; backend := 0 |} /\
+  owner m ex_ip p80 = Some 1%N /\ owner m ex_ip p443 = Some 2%N /\
+  count m 1%N ex_ip = Some 2%Z /\ m_len_fam m 1%N F4 = 1%Z /\
+  let m2 := m_run [OUnassign 1%N; OAssign 2%N (ex_req [p443] 9%N) [ex_ip];
+                   OSetPools {| by_name := [ex_pool2]; by_ns := []; by_sel := [] |}] m in
+  key_of m2 ex_ip = Some {| sharing := 9; backend := 0 |} /\ owner m2 ex_ip p80 = None /\
+  svcs_on m2 ex_ip = [2%N] /\ count m2 1%N ex_ip = None /\ count m2 2%N ex_ip = Some 1%Z /\ m_panic m2 = false.
+Proof. exact sharing_maps_witness. Qed.
+
+Example C11_setpools_order_witness :
+  let ops := sharing_ops ++ [OSetPools {| by_name := [ex_pool2]; by_ns := []; by_sel := [] |}] in
+  map fst (allocated (abs (m_run ops m_init))) = [1%N; 2%N] /\ map fst (allocated (run ops init)) = [2%N; 1%N].
+Proof. exact setpools_order_witness. Qed.
